@@ -82,8 +82,12 @@ def run(ctx):
             rec.insert(ctx.rng.randrange(len(rec) + 1), junk)
         for dtype in (np.float64, np.float32):
             arr = np.array(rec, dtype=dtype)
+            before = arr.copy()
             try:
                 together = [float(v) for v in np.atleast_1d(sy(arr))]
+                if not np.array_equal(arr, before, equal_nan=True):
+                    raise AssertionError("the caller's array of levels was modified by the evaluation (e.g. %r -> %r)" % (
+                        [float(v) for v in before[:3]], [float(v) for v in arr[:3]]))
                 alone = [float(sy(x)) for x in arr]
             except Exception as e:  # noqa
                 together, alone = None, "%s: %s" % (type(e).__name__, e)
@@ -101,6 +105,22 @@ def run(ctx):
                     "witness": {"why": "the value at a level depends on the other levels of the same call"
                                 if not ok_el else "not constant outside the knot range"}}})
                 break
+        # a returned value modified in place by the caller must not change later evaluations
+        try:
+            for z in (xmin - 3.0, xs[len(xs) // 2], xmax + 3.0):
+                r = sy(z)
+                first = float(r)
+                if isinstance(r, np.ndarray):
+                    r *= 3.0
+                ra = sy(np.array([z, z]))
+                if isinstance(ra, np.ndarray):
+                    ra -= 1.0
+                if float(sy(z)) != first:
+                    raise AssertionError("modifying a returned value in place changes later evaluations at level %r" % z)
+        except Exception as e:  # noqa
+            ctx.violation("impl-violation", "c14Holds", {"input": inp0, "impl": repr(e)[:200], "oracle": {
+                "name": "c14Holds", "result": False, "witness": {"why": "returned values alias the function's state", "detail": repr(e)[:200]}}})
+            continue
         abs_total = sum(abs(area_by_pieces(sy, xs, k0, k1)) for k0, k1 in zip(xs, xs[1:]))
         for a, b in hyd.limit_pairs(ctx.rng, xmin, xmax, xs, nlim):
             with hyd.record_fitpack() as (evals, splints):
@@ -110,6 +130,23 @@ def run(ctx):
                 except Exception as e:  # noqa
                     got, err = None, "%s: %s" % (type(e).__name__, e)
             inp = dict(inp0, a=a, b=b)
+            if err is None and ctx.rng.random() < 0.3:
+                # the same limits as they come out of an array (0-d arrays, one-element arrays' items, numpy scalars)
+                conv = ctx.rng.choice([np.array, np.float64, lambda v: np.array([v])[0:1].reshape(())])
+                ac, bc = conv(a), conv(b)
+                try:
+                    other = float(sy.integrate(ac, bc))
+                    changed = float(ac) != a or float(bc) != b
+                except Exception as e:  # noqa
+                    other, changed = "%s: %s" % (type(e).__name__, e), False
+                ctx.obligation("integrate: limits given as numpy scalars / 0-d arrays give the same value and are left untouched",
+                               other == got and not changed)
+                if other != got or changed:
+                    ctx.violation("impl-violation", "c14Holds", {"input": dict(inp, limits_as=type(ac).__name__ + (" 0-d" if getattr(ac, "ndim", 1) == 0 else "")),
+                                  "impl": {"with_floats": got, "with_numpy_limits": other, "limits_after": [float(ac), float(bc)]}, "oracle": {
+                        "name": "c14Holds", "result": False,
+                        "witness": {"why": "the integral depends on the container the limits are passed in, or the limits are modified"}}})
+                    continue
             inside = xmin <= a <= xmax and xmin <= b <= xmax
             ctx.case(("c14", tuple(xs), tuple(ys), a, b), not inside)
             if err is not None:
